@@ -14,6 +14,10 @@ the problem data alone.  This file proves
   public mutators (`add_time_points`, `set_max_vehicles`, `set_max_sequence_length`, `add_arc`, `add_node`, `set_depot`,
   `set_vehicle_cap`, `set_initial_loading`), including calls that raise — the object's replies are exactly those of the
   specification and the abstraction (forget flags and caches) of the final object is the final specification state;
+* route decoding `get_routes(x)` is the query `decode x` of both machines (it enumerates lazily through
+  `get_var_tuple_index` and, sequence formulation, reads the cached `fixed_values`): `arc_decode_refines`,
+  `seq_decode_refines`, the connection to the instance-level decoders `arc_decode_inst`, `seq_decode_inst`, and
+  `seq_decode_stale_unsound` (reading `fixed_values` before the lookups is visible);
 * the two clauses of the property: `arc_query_idempotent`, `arc_queries_irrelevant` (and `seq_…`); a QUERY is an
   operation that is neither a heuristic run nor a mutator, and `arc_queries_irrelevant` deletes exactly the queries
   (`ops.filter (fun op => op.isHeur || op.isMutator)` keeps every state-changing call);
@@ -83,6 +87,15 @@ theorem arc_stepWith_refines {head exit : ArcObj → ArcObj} (hh : ArcObj.Harmle
     have hs : o.stepWith head exit (.qubo feas rho?) = ((o.getQubo feas rho?).1, (match (o.getQubo feas rho?).2 with
         | .ok q => ArcReply.qubo q | .error e => ArcReply.raised e)) := rfl
     rw [hs, hd]
+    exact ⟨rfl, arc_abs_of_qpost hq, hq.1⟩
+  | decode x =>
+    have hs : o.stepWith head exit (.decode x) = ((o.getRoutes x).1, (match (o.getRoutes x).2 with
+        | .ok rs => ArcReply.routesA rs | .error e => ArcReply.raised e)) := rfl
+    rw [hs, ArcObj.getRoutes_eq hc]
+    have hq : ArcObj.QPost o (if (selectedIdx x).isEmpty then o else o.E) := by
+      split
+      · exact ArcObj.QPost.refl hc
+      · exact ArcObj.qpost_E hc
     exact ⟨rfl, arc_abs_of_qpost hq, hq.1⟩
   | heur high =>
     obtain ⟨h1, h2, h3⟩ := ArcObj.makeFeasibleWith_spec hh hx hc high
@@ -613,6 +626,15 @@ theorem seq_stepWith_refines {exit : SeqObj → SeqObj} (hx : SeqObj.Harmless ex
     cases o.inst.data with
     | none => rfl
     | some d => rfl
+  | decode x =>
+    have hs : o.stepWith SeqObj.resetAll exit (.decode x) = ((o.getRoutes x).1, (match (o.getRoutes x).2 with
+        | .ok rs => SeqReply.routesS rs | .error e => SeqReply.raised e)) := rfl
+    rw [hs, SeqObj.getRoutes_eq hc]
+    have hq : SeqObj.QPost o (if (selectedIdx x).isEmpty then o else o.E) := by
+      split
+      · exact SeqObj.QPost.refl hc
+      · exact SeqObj.qpost_E hc
+    exact ⟨rfl, seq_abs_of_qpost hq, hq.1⟩
   | heur high =>
     obtain ⟨h1, h2, h3⟩ := SeqObj.makeFeasibleWith_spec hx hc high
     have hs : o.stepWith SeqObj.resetAll exit (.heur high) = ((o.makeFeasibleWith SeqObj.resetAll exit high).1, (match (o.makeFeasibleWith SeqObj.resetAll exit high).2 with
@@ -979,6 +1001,228 @@ theorem seq_setMaxVehicles_nohook_replies :
     (seqRunNoHookV (SeqObj.init exSeq) exHistV).2 = [.num 3, .done, .num 3] ∧
     (({ inst := exSeq } : SeqAbs).specRun exHistV).2 = [.num 3, .done, .num 6] ∧
     ((SeqObj.init exSeq).run exHistV).2 = [.num 3, .done, .num 6] := by
+  decide +kernel
+
+/-! ## route decoding (`get_routes`) as an operation of the two machines
+
+`get_routes(x)` looks every selected index up through `get_var_tuple_index` (which enumerates lazily and sets
+`variables_enumerated`) and, in the sequence formulation, reads the dict `fixed_values` that `enumerate_variables`
+rebuilds.  It is the operation `decode x` of `ArcFOp` / `SeqFOp` (a query), and the coherence invariant carries the
+clause "`variablesEnumerated` ⇒ `o.fixedOnes = o.inst.fixedOnes`" (`SeqObj.Coherent.fixed`).  All theorems above
+(`arc_refines`, `seq_refines`, `…_query_idempotent`, `…_query_order`, `…_queries_irrelevant`, …) quantify over the
+enlarged operation types; the statements below spell out what they give for `decode`. -/
+
+/-- `decode` is a query of both machines (so `arc_query_idempotent`, `arc_query_order`, `arc_queries_irrelevant` and
+    their `seq_` twins apply to it) -/
+theorem decode_isQuery (x : List Rat) :
+    (ArcFOp.decode x).isHeur = false ∧ (ArcFOp.decode x).isMutator = false ∧
+    (SeqFOp.decode x).isHeur = false ∧ (SeqFOp.decode x).isMutator = false := ⟨rfl, rfl, rfl, rfl⟩
+
+/-- **arc `get_routes` refines**: for every object reachable from `init` by any call history, the reply of `decode x`
+    is the reply the cache-free specification gives in its own state after the same history (corollary of
+    `arc_run_refines`), and decoding leaves problem data and stored solution alone -/
+theorem arc_decode_refines (I : ArcInst) (ops : List ArcFOp) (x : List Rat) :
+    let o := ((ArcObj.init I).run ops).1
+    let s := (({ inst := I } : ArcAbs).specRun ops).1
+    (o.step (.decode x)).2 = (s.specStep (.decode x)).2 ∧ (o.step (.decode x)).1.abs = s := by
+  intro o s
+  obtain ⟨_, ha, hc⟩ := arc_run_refines (arc_coherent_init I) ops
+  obtain ⟨h1, h2, _⟩ := arc_step_refines hc (.decode x)
+  have ha' : o.abs = s := ha
+  rw [ha'] at h1 h2
+  exact ⟨h1, h2⟩
+
+/-- **sequence `get_routes` refines**: for every object reachable from `init` by any call history, the reply of
+    `decode x` is the reply the cache-free specification gives in its own state after the same history (corollary of
+    `seq_run_refines`): in particular the `fixed_values` the object reads from its cache are the fresh ones -/
+theorem seq_decode_refines (I : SeqInst) (ops : List SeqFOp) (x : List Rat) :
+    let o := ((SeqObj.init I).run ops).1
+    let s := (({ inst := I } : SeqAbs).specRun ops).1
+    (o.step (.decode x)).2 = (s.specStep (.decode x)).2 ∧ (o.step (.decode x)).1.abs = s := by
+  intro o s
+  obtain ⟨_, ha, hc⟩ := seq_run_refines (seq_coherent_init I) ops
+  obtain ⟨h1, h2, _⟩ := seq_step_refines hc (.decode x)
+  have ha' : o.abs = s := ha
+  rw [ha'] at h1 h2
+  exact ⟨h1, h2⟩
+
+/-- what the reply of `decode x` on a reachable object IS: the cache-free `ArcInst.getRoutes` of the current problem
+    data -/
+theorem arc_decode_reply (I : ArcInst) (ops : List ArcFOp) (x : List Rat) :
+    let o := ((ArcObj.init I).run ops).1
+    (o.step (.decode x)).2 = match o.inst.getRoutes x with | .ok rs => .routesA rs | .error e => .raised e := by
+  intro o
+  obtain ⟨_, _, hc⟩ := arc_run_refines (arc_coherent_init I) ops
+  exact (arc_step_refines hc (.decode x)).1
+
+/-- what the reply of `decode x` on a reachable object IS: the cache-free `SeqInst.getRoutes` of the current problem
+    data -/
+theorem seq_decode_reply (I : SeqInst) (ops : List SeqFOp) (x : List Rat) :
+    let o := ((SeqObj.init I).run ops).1
+    (o.step (.decode x)).2 = match o.inst.getRoutes x with | .ok rs => .routesS rs | .error e => .raised e := by
+  intro o
+  obtain ⟨_, _, hc⟩ := seq_run_refines (seq_coherent_init I) ops
+  exact (seq_step_refines hc (.decode x)).1
+
+/-- **connection to the instance-level arc decoder** (`ArcInst.decode` / `ArcInst.decodeAsserts`, `VrpModel/ArcBased.lean`,
+    the functions the route theorems are about): on a reachable object, when at least one index is selected and every
+    selected index is a variable index of the CURRENT problem, `decode x` returns `ArcInst.decode` of the current
+    problem data if the assertions of `get_routes` hold and raises `AssertionError` otherwise -/
+theorem arc_decode_inst (I : ArcInst) (ops : List ArcFOp) (x : List Rat) :
+    let o := ((ArcObj.init I).run ops).1
+    selectedIdx x ≠ [] → (∀ k ∈ selectedIdx x, k < o.inst.vars.length) →
+    (o.step (.decode x)).2 = if o.inst.decodeAsserts x then .routesA (o.inst.decode x) else .raised .assert := by
+  intro o hne hr
+  rw [arc_decode_reply I ops x, ArcInst.getRoutes_eq_decode o.inst x hne hr]
+  cases o.inst.decodeAsserts x with
+  | true => rfl
+  | false => rfl
+
+/-- **connection to the instance-level sequence decoder** (`SeqInst.decode`, `VrpModel/SeqBased.lean`, the function the
+    C07 theorems are about): on a reachable object, when at least one index is selected and every selected index is a
+    variable index of the CURRENT problem, `decode x` answers as `SeqInst.decode` of the current problem data -/
+theorem seq_decode_inst (I : SeqInst) (ops : List SeqFOp) (x : List Rat) :
+    let o := ((SeqObj.init I).run ops).1
+    selectedIdx x ≠ [] → (∀ k ∈ selectedIdx x, k < o.inst.vars.length) →
+    (o.step (.decode x)).2 = match o.inst.decode x with | .ok r => .routesS r | .error e => .raised e := by
+  intro o hne hr
+  rw [seq_decode_reply I ops x, SeqInst.getRoutes_eq_decode o.inst x hne hr]
+
+/-- nothing selected: the sequence object returns `[]` and the arc object raises, in both cases BEFORE any lookup — the
+    object (flags and caches included) is exactly as it was -/
+theorem decode_nothing_selected (x : List Rat) (hx : selectedIdx x = []) (oa : ArcObj) (os : SeqObj) :
+    oa.step (.decode x) = (oa, .raised .type) ∧ os.step (.decode x) = (os, .routesS []) := by
+  have ha : oa.getRoutes x = (oa, .error .type) := by unfold ArcObj.getRoutes; simp [hx]
+  have hs : os.getRoutes x = (os, .ok []) := by unfold SeqObj.getRoutes; simp [hx]
+  constructor
+  · show ((oa.getRoutes x).1, (match (oa.getRoutes x).2 with
+        | .ok rs => ArcReply.routesA rs | .error e => ArcReply.raised e)) = _
+    rw [ha]
+  · show ((os.getRoutes x).1, (match (os.getRoutes x).2 with
+        | .ok rs => SeqReply.routesS rs | .error e => SeqReply.raised e)) = _
+    rw [hs]
+
+/-- something selected: afterwards `variables_enumerated` is set (also when the decoding raises) -/
+theorem decode_enumerates (x : List Rat) (hx : selectedIdx x ≠ []) (oa : ArcObj) (os : SeqObj) :
+    (oa.step (.decode x)).1.variablesEnumerated = true ∧ (os.step (.decode x)).1.variablesEnumerated = true := by
+  have hemp : (selectedIdx x).isEmpty = false := by
+    cases h : selectedIdx x with
+    | nil => exact absurd h hx
+    | cons a l => rfl
+  constructor
+  · show (oa.getRoutes x).1.variablesEnumerated = true
+    unfold ArcObj.getRoutes ArcObj.enumerateVariables
+    simp only [hemp, Bool.false_eq_true, if_false]
+    cases h : oa.variablesEnumerated with
+    | true => simp [h]
+    | false => simp
+  · show (os.getRoutes x).1.variablesEnumerated = true
+    unfold SeqObj.getRoutes SeqObj.enumerateVariables
+    simp only [hemp, Bool.false_eq_true, if_false]
+    cases h : os.variablesEnumerated with
+    | true => simp [h]
+    | false => simp
+
+/-! ### expressiveness: reading `fixed_values` before the lookups -/
+
+/-- depot `D` (with its self-arc) and one customer `A` with both arcs, one vehicle, four positions: the free variables
+    are `(0,1,0) (0,1,1) (0,2,0) (0,2,1)`, the tuples fixed to 1 are `(0,0,0)` and `(0,3,0)` -/
+def exSeqD : SeqInst :=
+  { g := { nodes := [exNode "D", exNode "A"],
+           arcs := [((0, 0), ⟨"D", "D", 0, 0⟩), ((0, 1), ⟨"D", "A", 1, 1⟩), ((1, 0), ⟨"A", "D", 1, 1⟩)] },
+    strict := false, V := 1, L := 4, vcost := [0] }
+
+/-- DEFECTIVE variant of the sequence `get_routes`: the tuples fixed to 1 are taken from `fixed_values` BEFORE the
+    first `get_var_tuple_index` (i.e. from the incoming object `o` instead of the enumerated `o1`) -/
+def seqGetRoutesStale (o : SeqObj) (x : List Rat) : SeqObj × SeqReply :=
+  let sel := selectedIdx x
+  if sel.isEmpty then (o, .routesS [])
+  else
+    let fixed := o.fixedOnes
+    let o1 := o.enumerateVariables
+    (o1, match seqRoutesFrom o1.inst.g o1.inst.V o1.inst.L o1.varMapping fixed sel with
+         | .ok rs => .routesS rs
+         | .error e => .raised e)
+
+/-- **a decoder that reads `fixed_values` before enumerating is unsound**: on the fresh object (nothing enumerated yet,
+    `fixed_values` empty) it raises `IndexError`, after a size query it returns the route — the reply depends on
+    whether a query was made before.  The modelled `get_routes` answers `[[0, 1, 0, 0]]` both times. -/
+theorem seq_decode_stale_unsound :
+    let o := SeqObj.init exSeqD
+    (seqGetRoutesStale o [0, 1, 1, 0]).2 ≠ (seqGetRoutesStale (o.step .numVars).1 [0, 1, 1, 0]).2 ∧
+    (seqGetRoutesStale o [0, 1, 1, 0]).2 = .raised .index ∧
+    (seqGetRoutesStale (o.step .numVars).1 [0, 1, 1, 0]).2 = .routesS [[0, 1, 0, 0]] ∧
+    (o.step (.decode [0, 1, 1, 0])).2 = .routesS [[0, 1, 0, 0]] ∧
+    ((o.step .numVars).1.step (.decode [0, 1, 1, 0])).2 = .routesS [[0, 1, 0, 0]] := by
+  decide +kernel
+
+/-! ### non-vacuity: `decode` evaluated -/
+
+/-- sequence object, decoding as the FIRST call: the lookups enumerate, the cached `fixed_values` are filled before
+    they are read; the flag is set afterwards -/
+example :
+    ((SeqObj.init exSeqD).run [.decode [0, 1, 1, 0]]).2 = [.routesS [[0, 1, 0, 0]]] ∧
+    ((SeqObj.init exSeqD).run [.decode [0, 1, 1, 0]]).1.variablesEnumerated = true ∧
+    ((SeqObj.init exSeqD).run [.decode [0, 1, 1, 0]]).1.fixedOnes = [(0, 0, 0), (0, 3, 0)] := by
+  decide +kernel
+
+/-- sequence object, decoding right after a reconfiguration that follows a size query: `set_max_sequence_length(5)`
+    unsets the flag, so `var_mapping` (now six variables) and `fixed_values` (now `(0,0,0)`, `(0,4,0)`) are rebuilt; the
+    old four-entry vector now leaves position 3 empty and `pop(0)` raises; an index beyond the variables raises
+    `TypeError`; the empty selection returns `[]` without touching the flag -/
+example :
+    ((SeqObj.init exSeqD).run [.numVars, .setMaxSeqLen 5, .decode [0, 1, 1, 0, 1, 0], .decode [0, 1, 1, 0],
+        .decode [0, 0, 0, 0, 0, 0, 1], .numVars]).2
+      = [.num 4, .done, .routesS [[0, 1, 0, 0, 0]], .raised .index, .raised .type, .num 6] ∧
+    ((SeqObj.init exSeqD).run [.numVars, .setMaxSeqLen 5, .decode [0, 0]]).2 = [.num 4, .done, .routesS []] ∧
+    ((SeqObj.init exSeqD).run [.numVars, .setMaxSeqLen 5, .decode [0, 0]]).1.variablesEnumerated = false ∧
+    ((SeqObj.init exSeqD).run [.numVars, .setMaxSeqLen 5, .decode [0, 1, 1, 0, 1, 0]]).1.fixedOnes
+      = [(0, 0, 0), (0, 4, 0)] := by
+  decide +kernel
+
+/-- the specification gives the same replies (an instance of `seq_refines`, here by evaluation) -/
+example :
+    (({ inst := exSeqD } : SeqAbs).specRun [.numVars, .setMaxSeqLen 5, .decode [0, 1, 1, 0, 1, 0], .decode [0, 1, 1, 0],
+        .decode [0, 0, 0, 0, 0, 0, 1], .numVars]).2
+      = [.num 4, .done, .routesS [[0, 1, 0, 0, 0]], .raised .index, .raised .type, .num 6] := by
+  decide +kernel
+
+/-- depot `D`, customer `A`, arcs `D → A → D` of duration 1, grid `0, 1, 2`: six variables
+    `(0,0,1,1) (0,0,1,2) (0,1,1,2) (1,0,0,1) (1,0,0,2) (1,1,0,2)` -/
+def exArcD : ArcInst :=
+  { g := { nodes := [exNode "D", exNode "A"],
+           arcs := [((0, 1), ⟨"D", "A", 1, 1⟩), ((1, 0), ⟨"A", "D", 1, 1⟩)] },
+    T := [0, 1, 2] }
+
+/-- arc object, decoding as the FIRST call; the empty selection raises before any lookup (flag still unset); an index
+    beyond the variables raises `TypeError` after the enumeration; two arrivals at `A` violate the visit assertion -/
+example :
+    ((ArcObj.init exArcD).run [.decode [1, 0, 0, 0, 0, 1]]).2 = [.routesA [[(0, 0), (1, 1), (0, 2)]]] ∧
+    ((ArcObj.init exArcD).run [.decode [1, 0, 0, 0, 0, 1]]).1.variablesEnumerated = true ∧
+    ((ArcObj.init exArcD).run [.decode [0, 0]]).2 = [.raised .type] ∧
+    ((ArcObj.init exArcD).run [.decode [0, 0]]).1.variablesEnumerated = false ∧
+    ((ArcObj.init exArcD).run [.decode [0, 0, 0, 0, 0, 0, 1]]).2 = [.raised .type] ∧
+    ((ArcObj.init exArcD).run [.decode [0, 0, 0, 0, 0, 0, 1]]).1.variablesEnumerated = true ∧
+    ((ArcObj.init exArcD).run [.decode [1, 1, 0, 0, 0, 1]]).2 = [.raised .assert] := by
+  decide +kernel
+
+/-- arc object, decoding right after a reconfiguration that follows a size query: `add_time_points` unsets the flag,
+    the twelve variables of the longer grid are enumerated afresh; the old six-entry vector now selects
+    `(0,0,1,1)` and `(0,2,1,3)` — two arrivals at `A` — and the visit assertion fails -/
+example :
+    ((ArcObj.init exArcD).run [.numVars, .addTimePoints [0, 1, 2, 3], .decode [1, 0, 0, 0, 0, 0, 0, 0, 0, 1, 0, 0],
+        .decode [1, 0, 0, 0, 0, 1], .numVars]).2
+      = [.num 6, .done, .routesA [[(0, 0), (1, 1), (0, 2)]], .raised .assert, .num 12] ∧
+    (({ inst := exArcD } : ArcAbs).specRun [.numVars, .addTimePoints [0, 1, 2, 3],
+        .decode [1, 0, 0, 0, 0, 0, 0, 0, 0, 1, 0, 0], .decode [1, 0, 0, 0, 0, 1], .numVars]).2
+      = [.num 6, .done, .routesA [[(0, 0), (1, 1), (0, 2)]], .raised .assert, .num 12] := by
+  decide +kernel
+
+/-- the hypotheses of `seq_decode_inst` / `arc_decode_inst` are satisfiable, and both sides are a proper route -/
+example :
+    selectedIdx [0, 1, 1, 0] = [1, 2] ∧ exSeqD.vars.length = 4 ∧ exSeqD.decode [0, 1, 1, 0] = .ok [[0, 1, 0, 0]] ∧
+    selectedIdx [1, 0, 0, 0, 0, 1] = [0, 5] ∧ exArcD.vars.length = 6 ∧ exArcD.decodeAsserts [1, 0, 0, 0, 0, 1] = true ∧
+    exArcD.decode [1, 0, 0, 0, 0, 1] = [[(0, 0), (1, 1), (0, 2)]] := by
   decide +kernel
 
 end Vrp.C14c
